@@ -182,7 +182,7 @@ TRUSTED = ["hand model Tetl/C07/Model.lean tied to the source by the corresponde
            "[over.best.ics] / [over.ics.rank] restricted to the 18 modelled kinds, LP64 with signed plain char) is the compiler's "
            "overload resolution written down as data; validated by R1 and R2 on every argument kind x alternative list of the "
            "selector probes and every argument type x configuration of the converting forms",
-           "compile probes (PROBES in checks/props/c07.py) decide whether the five optional members exist; their result is part "
+           "compile probes (PROBES in checks/props/c07.py) decide whether eight members / forms that may be absent exist; their result is part "
            "of the harness flags and of the evidence"]
 T = "Tetl.C07.Props."
 THEOREMS = {
@@ -697,6 +697,13 @@ CORRESPONDENCE_ONLY = [
     "return values of emplace (reference to the new value) and of visit (the visitor's result): compared on every run",
 ]
 UNPROVED_OBSERVED = [
+    "optional<T&> has no std counterpart in libstdc++ 12 (C++26, P2988): the reference side of the `oref` lines is the wording of "
+    "the paper written out by hand in the harness (a nullable pointer; conversion from optional<U>: empty -> empty, engaged -> bound "
+    "to the source's object), so R2 validates the spec against that hand-written reference, not against an independent "
+    "implementation. Outside the driven forms: the final P2988 adds optional<T&>(optional<U>&) (mutable binding to the contents of a "
+    "non-const optional<U>) and deletes construction from an rvalue optional<U> that would dangle; etl (following R3) has only the "
+    "const& converting members, so optional<int&> from optional<int> is ill-formed and optional<int const&> from an rvalue "
+    "optional<int> compiles - neither is driven nor recorded as a finding.",
     "value categories (observed, not proved - a value-level Lean model cannot carry them): the reference kind (T&, T const&, T&&, "
     "T const&&) that visit hands to the visitor for every category of one variant and every pair of categories of two, of "
     "unchecked_get / std::get and operator[], of optional::operator* and the argument of optional::and_then, of expected::operator*, "
